@@ -426,6 +426,57 @@ def r5_headers(ctx, R):
     ctx.floor("C19.R5", n, 4, what="rows of add_encoding_headers")
 
 
+def r5_config_plumbing(ctx, R):
+    """the auto_gzip setting chosen on the builder is the one the directory object carries (and `get` consults)"""
+    sites = aggregates(ctx.facts, R["dir"])
+    ctors = sorted({b["name"] for b, i, st in sites})
+    n = 0
+    for fn in ctors:
+        b = ctx.facts.bodies[fn]
+        bparams = [i for i in range(1, b["arg_count"] + 1) if b["locals"][i]["s"] == "bool"]
+        for o in ctx.px(fn):
+            if o.kind != "return":
+                continue
+            for key, v in list(o.state.env.items()):
+                if key[0] == "H" and is_agg(v) and v[2] == R["dir"]:
+                    n += 1
+                    av = agg_get(v, R["auto_f"])
+                    if len(bparams) == 1 and av == ("param", bparams[0]):
+                        ctx.ok("C19.R5", "%s stores the auto_gzip argument in the directory object" % fn)
+                    else:
+                        ctx.violation("C19.R5", "C19.R5|ctor-auto", "%s builds the directory object with auto_gzip = %s, not its argument" % (fn, short(av, 40)))
+        # callers pass the builder's own setting
+        for cb, ci, ct in calls_named(ctx.facts, fn):
+            for o in ctx.px(cb["name"]):
+                for e in o.events:
+                    if e["k"] == "call" and e["callee"].get("res_path") == fn and len(bparams) == 1:
+                        a = e["args"][bparams[0] - 1]
+                        okk = isinstance(a, tuple) and a[0] == "field" and a[1] == ("deref", ("param", 1))
+                        if okk:
+                            ctx.ok("C19.R5", "%s passes the builder's own auto_gzip field" % cb["name"])
+                            # and the setter on that builder type stores its argument
+                            bad = None
+                        else:
+                            ctx.violation("C19.R5", "C19.R5|builder-pass", "%s does not pass the builder's auto_gzip setting (passes %s)" % (cb["name"], short(a, 40)))
+    # the setter: a method of a struct with exactly one bool field returning Self with that field = its bool argument
+    for a in ctx.facts.adts.values():
+        if a["local"] and a["kind"] == "struct" and [f["ty"] for f in a["variants"][0]["fields"]] == ["bool"] and a["path"] != R["dir"]:
+            fld = a["variants"][0]["fields"][0]["name"]
+            for f in ctx.facts.fns.values():
+                if (f.get("impl_self") or "") == a["path"] and not f.get("impl_trait"):
+                    body = ctx.facts.bodies[f["path"]]
+                    if body["arg_count"] == 2 and body["locals"][2]["s"] == "bool" and body["locals"][0]["s"] == a["path"]:
+                        outs = [o for o in ctx.px(f["path"]) if o.kind == "return"]
+                        v = outs[0].value if len(outs) == 1 else None
+                        got = agg_get(v, fld) if is_agg(v) else (v[3] if isinstance(v, tuple) and v and v[0] == "upd" and v[2] == ("f", fld) else None)
+                        n += 1
+                        if got == ("param", 2):
+                            ctx.ok("C19.R5", "%s stores its argument" % f["path"])
+                        else:
+                            ctx.violation("C19.R5", "C19.R5|setter", "%s does not store its argument as the auto_gzip setting (%s)" % (f["path"], short(v, 60)))
+    ctx.floor("C19.R5.cfg", n, 2, what="configuration plumbing sites (setter, constructor)")
+
+
 def run(ctx):
     R = roles(ctx)
     r3_validator(ctx, R)
@@ -433,3 +484,4 @@ def run(ctx):
     if opener:
         r4_lookup(ctx, R, opener)
     r5_headers(ctx, R)
+    r5_config_plumbing(ctx, R)
